@@ -271,6 +271,34 @@ def replay_sweep(case):
     return out
 
 
+def run_spots(spec, ctx):
+    """Event clause on isolated queries spread over the whole range (quick tier: the era
+    sweeps cover ordering densely but only six short stretches of the 6000 years)."""
+    vi, js = spec
+    nm, fn, variant, per = variants()[vi]
+    for q in js:
+        ctx.evals += 1
+        y = fast().date(int(math.floor(q + 0.5)))[0]
+        case = {"planet": nm, "finder": fn, "variant": variant, "query": q, "year": y}
+        try:
+            re, extra = call(nm, fn, variant, q)
+        except Exception as ex:
+            ctx.viol(case, "%s.%s(%s) at JDE %r raised %r" % (nm, fn, variant, q, ex), site="finder_exception")
+            continue
+        ctx.nt_count += 1
+        far = abs(re - q) / per
+        if far > 1.0:
+            ctx.viol(case, "%s.%s(%s) at JDE %r returns JDE %r, %.3f periods away" % (nm, fn, variant, q, re, far),
+                     dev=far, site="far")
+        for site, msg, dev in check_event(nm, fn, variant, re, extra):
+            ctx.viol(dict(case, result=re), msg, dev=dev, site=site)
+            ctx.maxi(site, dev)
+        ctx.count("events_checked")
+    ctx.outcome((nm, fn, variant))
+    ctx.obs(nm, fn, variant, len(js))
+    ctx.sample({"planet": nm, "finder": fn, "variant": variant, "query": js[0]})
+
+
 def check_range(case):
     nm, fn = case["planet"], case["finder"]
     out = []
@@ -322,7 +350,16 @@ def clauses(tier):
                     a = j_lo
                 sweeps.append((vi, a, b, 1, "era%d" % era))
     rng = [{"planet": nm, "finder": fn} for nm, fl in CH36.items() for fn in fl]
+    spots = []
+    n_spots = 240 if tier == "quick" else 1200
+    for vi, (nm, fn, variant, per) in enumerate(V):
+        # irrational stride so that the phase within the period is spread too
+        stride = (j_hi - j_lo - 2 * per) / n_spots
+        js = [j_lo + per + (i + 0.381966 * ((i * 7) % 11) / 11.0) * stride for i in range(n_spots)]
+        for blk_i in range(0, len(js), 60):
+            spots.append((vi, js[blk_i:blk_i + 60]))
     return [
+        Clause("spot_events", spots, run_spots, replay_sweep, floor=1000),
         Clause("sweeps", sweeps, run_sweep, replay_sweep, floor=1000),
         Clause("range", [rng], run_range, check_range, floor=20),
     ]
